@@ -65,12 +65,14 @@ def parseTfl (s : String) : Option (Int × Nat × List Nat) :=
   | _ => none
 
 open VelaVerif.Spec.RawOutput in
-/-- a shape without its leading 1s (the repaired writer pads the shorter shapes of a list with leading 1s) -/
-def core (s : List Nat) : List Nat := s.dropWhile (· == 1)
+/-- a shape without its unit dimensions: in a linear layout they change neither the element order nor the byte size.  The
+    repaired writer pads the shorter shapes of a list with leading 1s; Vela's own tensor of an ARG_MAX result keeps the reduced
+    axis as a trailing 1 (`[1, 5, 1]`) where the TFLite writer publishes the shape of the source network (`[1, 5]`) -/
+def core (s : List Nat) : List Nat := s.filter (· != 1)
 
 open VelaVerif.Spec.RawOutput in
 /-- one listed tensor of the .npz names the same bytes as the tensor of the TFLite output: same offset, same element size, same
-    shape up to leading 1s -/
+    shape up to unit dimensions -/
 def sameIo (r : RawIo) (t : Int × Nat × List Nat) : Bool :=
   match r.offset with
   | none => false
